@@ -77,6 +77,15 @@ CHECKS.update({
             "D=1 for n<=3, D=0 for n=4 (quick); D=2/1 (thorough)", E2F, "DESIGN.md 3 C04"),
 })
 
+CHECKS.update({
+    "C05": ("E2", "fault_enumeration",
+            "Formed cluster of 3..4 (thorough 6) members with renewable identities, notify_down_members and periodic_announce_to_down_members; every split shape (up to symmetry, at least one side >= 2), formation phase offsets {0 = all boot in the same tick, 1, 17}, partition start at event indices of the window, partition held until both sides declared each other Down and then healed at a sweep of instants across one announce-to-down period; plus the asymmetric case (a single live member falsely declared Down); on selected cells every schedule with <= 1 deviation after the heal. Oracle: within 8 announce-to-down periods every live instance lists every other under its current identity; every instance told it is down reports Rejoin (never Defunct) with a winning identity and Active afterwards.",
+            "known finding F6 (aligned timers: everybody renews at once, permanent silence) is reported as KNOWN-FINDING by its symptom; timing configuration fixed", E2F, "DESIGN.md 3 C05"),
+    "C18": ("E2", "model_checking",
+            "Pairs of real instances in every combination of mutual knowledge (unknown / Alive / Suspect / Down / older generation / newer generation of the other; with or without an absent third party so that the instance is active on its own; active or defunct), renewable or not, notify_down_members on/off, fan-out 1/3 (9216 worlds) and triples over a reduced domain; states are built by real calls (apply_many, leave_cluster). Every initial datagram kind from every instance to every other, also addressed to a superseded identity and carrying the sender's belief about the receiver; then ALL delivery orders of the in-flight multiset (DFS with deduplication on the global state), timers never fired. Oracle: the network drains, no global state repeats along a path (modulo timer token / probe number), each delivery causes <= 2F+2 datagrams, <= 64 datagrams in total.",
+            "exhaustive over the stated worlds and delivery orders; the 64-datagram cap is part of the oracle", E2X, "DESIGN.md 3 C18"),
+})
+
 PENDING = {}  # property -> reason; filled below for everything not in CHECKS
 
 def main():
